@@ -56,6 +56,7 @@ func checkSort(t []byte, variant int, family string, st *engine.Stats, col *engi
 			fail("suffix|panic", "panic on text %q: %v", t, r)
 		}
 	}()
+	engine.Progress.Add(1)
 	orig := append([]byte(nil), t...)
 	sa := make([]int32, len(t))
 	prefill(sa, variant)
@@ -542,6 +543,7 @@ func fmtCallbacks(cbs []segCallback) string {
 }
 
 func checkSegmentsText(t []byte, st *engine.Stats, col *engine.Collector) {
+	engine.Progress.Add(1)
 	n := len(t)
 	sa := ref.SuffixArray(t)
 	lcp := ref.LCPNaive(t, sa)
